@@ -148,6 +148,10 @@ func genWorlds(r *wire.Rng, n int) []genWorld {
 		for _, id := range w.ids {
 			w.line = append(w.line, wire.Enc(id), encPods(w.pods[id]))
 		}
+		if r.Chance(1, 5) {
+			// discovery selectors: a namespace the control plane does not watch
+			w.line = append(w.line, "hide", wire.EncList([]string{wire.Pick(r, []string{"a", "c", "istio-system"})}))
+		}
 		ws = append(ws, w)
 	}
 	return ws
@@ -185,7 +189,10 @@ func (c genCA) line() []string {
 
 func genCAConfig(r *wire.Rng) genCA {
 	c := genCA{hasSigner: true}
-	switch r.Intn(19) {
+	switch r.Intn(20) {
+	case 19:
+		c.kind = "future"
+		c.life = wire.Pick(r, []int64{7200, 30 * 86400})
 	case 16:
 		c.kind, c.noRoot = "noroot", true
 		c.life = wire.Pick(r, []int64{7200, 30 * 86400})
@@ -647,6 +654,9 @@ func genReqA(r *wire.Rng, w genWorld, cfg genCA) reqaSpec {
 		}
 	} else if kind == 1 {
 		q.spec[6] = q.req.cluster
+	} else if r.Chance(1, 6) {
+		// impersonation asked by a caller whom a non-Kubernetes authenticator authenticated (no pod information)
+		q.req.imp = genImpersonation(r, w)
 	}
 	return q
 }
@@ -715,7 +725,18 @@ func genDynamicCase(r *wire.Rng, cfg genCA, out *wire.Out) {
 		id := "c1"
 		_, isPending := pending[id]
 		_, exists := active[id]
-		switch r.Intn(9) {
+		switch r.Intn(10) {
+		case 9:
+			// a pod is created unscheduled and scheduled later
+			if exists && !isPending {
+				p := podSpec{name: "late" + strconv.Itoa(uid), ns: wire.Pick(r, genNSs), uid: next(), sa: wire.Pick(r, genSAs), node: "", phase: "P"}
+				out.Line("pod", "add", id, wire.Enc(encFields(p.name, p.ns, p.uid, p.sa, p.node, p.phase)))
+				active[id] = append(active[id], p)
+				request()
+				p.node, p.phase = "n1", ""
+				active[id][len(active[id])-1] = p
+				out.Line("pod", "upd", id, wire.Enc(encFields(p.name, p.ns, p.uid, p.sa, p.node, p.phase)))
+			}
 		case 0, 1:
 			if exists && !isPending {
 				p := podSpec{name: "n" + strconv.Itoa(uid), ns: wire.Pick(r, genNSs), uid: next(), sa: wire.Pick(r, genSAs), node: wire.Pick(r, []string{"n1", "n1", "n2", ""}),
@@ -738,6 +759,28 @@ func genDynamicCase(r *wire.Rng, cfg genCA, out *wire.Out) {
 					active[id] = append(active[id], np)
 					request()
 					out.Line("pod", "add", id, wire.Enc(encFields(np.name, np.ns, np.uid, np.sa, np.node, np.phase)))
+				}
+			}
+		case 8:
+			// a pod is UPDATED: scheduled late, turns Failed / Succeeded, changes its node
+			if exists && !isPending && len(active[id]) > 0 {
+				k := r.Intn(len(active[id]))
+				p := active[id][k]
+				switch r.Intn(4) {
+				case 0:
+					p.node = wire.Pick(r, []string{"n1", "n2"})
+				case 1:
+					p.phase = "F"
+				case 2:
+					p.phase = wire.Pick(r, []string{"S", ""})
+				case 3:
+					p.node = ""
+				}
+				active[id][k] = p
+				out.Line("pod", "upd", id, wire.Enc(encFields(p.name, p.ns, p.uid, p.sa, p.node, p.phase)))
+				if p.phase == "F" {
+					// a Failed pod is gone from the API as far as later events of this case are concerned
+					active[id] = append(append([]podSpec{}, active[id][:k]...), active[id][k+1:]...)
 				}
 			}
 		case 4:
@@ -779,6 +822,53 @@ func genDynamicCase(r *wire.Rng, cfg genCA, out *wire.Out) {
 	}
 }
 
+// genReqM: istiod's authenticator chain - client certificate, Kubernetes JWT or OIDC, XFCC - all REAL, in
+// one server, seeing one request.
+func genReqM(r *wire.Rng, w genWorld, cfg genCA) reqmSpec {
+	m := reqmSpec{req: reqSpec{xdsAuth: true, hasPeer: true, tls: true, csr: genCSR(r), ttl: genTTL(r, cfg), imp: "-", signer: "-", cluster: genCluster(r, w)}}
+	certKind := 3
+	if r.Chance(1, 2) {
+		certKind = 4
+	}
+	tokenKind := wire.Pick(r, []int{0, 1, 1})
+	pick := func(kind int, valid bool) []string {
+		sp := genAuthSpec(r, kind, "grpc", true)
+		for i := 0; i < 8; i++ {
+			if kind == 1 {
+				sp[6] = m.req.cluster
+			}
+			_, ok := expectedFromCredential(sp, m.req.cluster)
+			if sp[0] == "xfcc" && sp[3] == "nopeer" {
+				ok = !valid // keep a peer
+			}
+			if sp[0] == "cert" && sp[2] != "tls" && sp[2] != "tlspeer" {
+				ok = !valid // keep the TLS auth info
+			}
+			if ok == valid {
+				break
+			}
+			sp = genAuthSpec(r, kind, "grpc", true)
+		}
+		if kind == 1 {
+			sp[6] = m.req.cluster
+		}
+		return sp
+	}
+	// which of the three (if any) carries a valid credential
+	good := r.Intn(5)
+	order := []int{certKind, tokenKind, 2}
+	if r.Chance(1, 4) {
+		order = []int{tokenKind, 2, certKind}
+	}
+	if r.Chance(1, 3) {
+		order = order[:2]
+	}
+	for i, k := range order {
+		m.specs = append(m.specs, pick(k, i == good || (good == 4 && i >= 1)))
+	}
+	return m
+}
+
 func genIssue(seed uint64, n int, outp string) {
 	out := wire.Create(outp)
 	defer out.Close()
@@ -806,6 +896,10 @@ func genIssue(seed uint64, n int, outp string) {
 		for i := 0; i < nreq; i++ {
 			if r.Chance(1, 4) {
 				out.Line(genReqA(r, w, cfg).line()...)
+				continue
+			}
+			if r.Chance(1, 12) {
+				out.Line(genReqM(r, w, cfg).line()...)
 				continue
 			}
 			q := reqSpec{xdsAuth: true, hasPeer: true, tls: true, imp: "-", signer: "-", cluster: "-"}
